@@ -20,10 +20,10 @@ RELATED = {
 
 AREA = {  # area-based rounds (S / T / U + two digits): the checks that look at that source area
     "01": ["C01", "C05", "C06", "C04", "C18"], "02": ["C02", "C03", "C06", "C04"],
-    "03": ["C01", "C05", "C06", "C04", "C08"], "04": ["C01", "C04", "C09", "C20", "C18"],
-    "05": ["C16", "C06", "C04", "C18", "C17"], "06": ["C01", "C02", "C05", "C06", "C04", "C20"],
-    "07": ["C10", "C11"], "08": ["C12", "C02", "C06", "C20"], "09": ["C13", "C14", "C15", "C03"],
-    "10": ["C07", "C08", "C19", "C03", "C06", "C05"],
+    "03": ["C01", "C05", "C06", "C04", "C08"], "04": ["C01", "C04", "C09", "C20", "C18", "C06", "C05"],
+    "05": ["C16", "C06", "C04", "C18", "C17", "C20", "C05"], "06": ["C01", "C02", "C05", "C06", "C04", "C20", "C03"],
+    "07": ["C10", "C11"], "08": ["C12", "C02", "C06", "C20", "C03"], "09": ["C13", "C14", "C15", "C03", "C17"],
+    "10": ["C07", "C08", "C19", "C03", "C06", "C05", "C04", "C18"],
 }
 
 
